@@ -617,6 +617,20 @@ pub fn run(ctx: &Ctx, rep: &mut Report) {
                 ep.other_args.push(mk_fn("g1", target.clone()));
                 ep.other_args.push(mk_fn("f1", other_target.clone()));
                 matrix(rep, &mut u, &ep, &stranger, "member");
+                // the operator named is the very contract being called
+                {
+                    let (o2, t2) = (oc.clone(), target.clone());
+                    u.setup(move |env| AxelarOperatorsClient::new(env, &o2).add_operator(&t2));
+                    u.skip_events();
+                    let (o2, t2) = (oc.clone(), target.clone());
+                    let call: Call = Rc::new(move |env: &Env| {
+                        let mut a: SVec<Val> = SVec::new(env);
+                        a.push_back(3u32.into_val(env));
+                        flat(AxelarOperatorsClient::new(env, &o2).try_execute(&t2, &t2, &Symbol::new(env, "f1"), &a)).map(|_| ())
+                    });
+                    let ep = Ep { valid: true, name: "operators.execute", named: target.clone(), counterparty: Some(op.clone()), owner: Some(owner.clone()), call, other_args: vec![] };
+                    matrix(rep, &mut u, &ep, &stranger, "member,operator-is-the-target");
+                }
                 let t2 = target.clone();
                 proxy_variant(rep, &mut u, "operators.execute", &proxy, &oc, "execute", &|env, n| {
                     let mut a: SVec<Val> = SVec::new(env);
